@@ -176,7 +176,7 @@ class DUnit(M.MUnit):
         if not plumb:
             return M.MUnit.add_method(self, cls, path, anchor, name, members, methods, occurrence, extra_pre, cxxname, keep_asserts, pyname)
         c = cut_function(path, anchor, name, occurrence=occurrence)
-        P = DPlumb()
+        P = (plumb if isinstance(plumb, type) else DPlumb)()
         hdr = P.header(c.header)
         refs = [r for r in M.ref_params(c.header) if re.search(r"HType\s*&\s*%s\b" % r, strip_comments(c.header))]
         def pre(body):
@@ -1550,4 +1550,400 @@ def jac_lemmas(B, sc, U):
         zexp = zexp + sc.shift_in(c.l, za[c.nodeNum])
     ok &= prove(B, None, "J4 calcEquivalentJointForces: ~H*(F_B - total centrifugal force + sum_c shift(z_c))", Vec(list(n.fromU(jf))),
                 Vec([S.dot(list(sc.H.cols[j][0]), list(zexp[0])) + S.dot(list(sc.H.cols[j][1]), list(zexp[1])) for j in range(dof)]), [], U, SPEC + "calcEquivalentJointForces")
+    return ok
+
+
+# ----------------------------------------------------------------------
+# RBNodeLoneParticle (RigidBodyNode_LoneParticle.cpp): the node a Translation mobilizer directly on Ground with identity frames and no children gets
+# instead of RigidBodyNodeSpec<3>. Its members are cut and transliterated each run like the generic node's; the lemmas are the generic node lemmas
+# specialised to H = [0; 1], parent = Ground at rest, no children, a = b = 0.
+# ----------------------------------------------------------------------
+LONE_CPP = os.path.join(SRC, "RigidBodyNode_LoneParticle.cpp")
+LONE = "RBNodeLoneParticle::"
+_VIEWARG = r"\(((?:[^()]|\([^()]*\))*)\)"
+LONE_VEL_FIELDS = ("V_FM", "V_PB_G", "VD_PB_G", "V_GB", "GyroscopicForce", "MobilizerCoriolisAcceleration", "TotalCoriolisAcceleration", "TotalCentrifugalForces")
+LONE_PASSES = ("realizeArticulatedBodyInertiasInward", "calcUDotPass1Inward", "calcUDotPass2Outward", "multiplyByMInvPass1Inward", "multiplyByMInvPass2Outward",
+               "calcBodyAccelerationsFromUdotOutward", "calcInverseDynamicsPass2Inward", "multiplyByMPass1Outward", "multiplyByMPass2Inward",
+               "multiplyBySystemJacobian", "multiplyBySystemJacobianTranspose", "calcEquivalentJointForces", "calcCompositeBodyInertiasInward",
+               "realizeVelocity", "calcQDot", "calcQDotDot")
+
+
+class LPlumb(DPlumb):
+    """DPlumb + the Vec3 pointer views of the LoneParticle node: `[const] Vec3& x = Vec3::updAs/getAs(&a[k])` is inlined textually (every use re-reads the
+    slots, every assignment writes through); then view writes become SETAS(a,k,3,e) and view reads GETAS(a,k,3)"""
+    @staticmethod
+    def ptr(e):
+        e = e.strip()
+        m = re.fullmatch(r"&\s*([\w.]+(?:\(\))?)\s*\[\s*(.+?)\s*\]", e)
+        if m:
+            return m.group(1), m.group(2)
+        if re.fullmatch(r"\w+", e):
+            return e, "0"
+        raise ExtractionError("pointer-view: cannot parse pointer expression '%s'" % e)
+
+    def body(self, b, refparams=()):
+        b = strip_comments(b)
+        for m in list(re.finditer(r"(?:const\s+)?Vec3\s*&\s*(\w+)\s*=\s*(Vec3::(?:getAs|updAs)" + _VIEWARG + r")\s*;", b)):
+            nm, tgt = m.group(1), m.group(2)
+            self.hit("reference to a Vec3 pointer view inlined (name -> view expression)", m.group(0))
+            b = b.replace(m.group(0), "", 1)
+            b = re.sub(r"(?<![\w.>])" + nm + r"\b(?!\s*\()", lambda _m: tgt, b)
+        def wr(m):
+            base, off = self.ptr(m.group(1))
+            return "SETAS(%s, %s, 3, %s);" % (base, off, m.group(2))
+        def rd(m):
+            base, off = self.ptr(m.group(1))
+            return "GETAS(%s, %s, 3, 'Vec')" % (base, off)
+        b = self.sub("pointer-view write Vec3::updAs(&a[k]) = e -> SETAS(a,k,3,e)", r"\bVec3::updAs" + _VIEWARG + r"\s*=(?!=)\s*([^;]*);", wr, b)
+        b = self.sub("pointer-view read Vec3::getAs/updAs(&a[k]) -> GETAS(a,k,3)", r"\bVec3::(?:getAs|updAs)" + _VIEWARG, rd, b)
+        return DPlumb.body(self, b, refparams)
+
+
+def build_lone(B):
+    """class LoneNode with the members of RBNodeLoneParticle cut from the current tree (+ the RigidBodyNode members it inherits)"""
+    if "LoneNode" in B.cls:
+        return B.cls["LoneNode"]
+    C = B.cls
+    Base = C["DNode"].__mro__[1]
+    class LoneNode(Base):
+        """RBNodeLoneParticle : RigidBodyNode"""
+        dof = 3
+        def _upd(self, f):
+            if f not in self.store and f in LONE_VEL_FIELDS:
+                self.store[f] = sv("junk%d_%s_" % (self.nodeNum, f))          # cache slot allocated but not yet written: arbitrary contents
+            return Base._upd(self, f)
+        def _get(self, f):
+            if f not in self.store and f in LONE_VEL_FIELDS:
+                self._upd(f)                                                   # never written (e.g. a deleted initialisation): whatever the allocation left there
+            return Base._get(self, f)
+    for nm in LONE_PASSES:
+        anchor = r"void %s\s*\([^{;]*?\)\s*const\s+override\s*" % nm
+        B.add_method(LoneNode, LONE_CPP, anchor, nm, members=NODE_MEMBERS, methods=NODE_METHODS, occurrence=occurrence_in_class(LONE_CPP, "RBNodeLoneParticle", anchor),
+                     cxxname=LONE + nm, plumb=LPlumb)
+    # realizeInstance: only the statements that initialise the velocity-cache entries the dynamics passes rely on are kept (the rest: X_FM, H storage, Y, A_GB: dropped + logged)
+    dropped = []
+    keep = re.compile(r"(?:self\.set(?:%s)\(vc,|upd(?:%s)\(vc\)\[[01]\]\s*=(?!=))" % ("|".join(LONE_VEL_FIELDS), "|".join(LONE_VEL_FIELDS)))
+    def only_vc(body):
+        T = Translit("realizeInstance")
+        out, rest = [], body
+        while rest.strip():
+            st, rest = T.one(rest)
+            s = " ".join(st.split())
+            if not s or s == ";":
+                continue
+            if keep.match(s):
+                out.append(s if s.endswith(";") else s + ";")
+            else:
+                dropped.append(dict(rule="realizeInstance: statement outside the velocity cache dropped (X_FM, H_PB_G/H_FM storage, Y, A_GB are not read by the passes under contract)", text=s[:200]))
+        if not out:
+            raise ExtractionError("RBNodeLoneParticle::realizeInstance: no velocity-cache initialisation found")
+        return "\n".join(out)
+    anchor = r"void realizeInstance\s*\([^{;]*?\)\s*const\s+override\s*"
+    B.add_method(LoneNode, LONE_CPP, anchor, "realizeInstance", members=NODE_MEMBERS, methods=NODE_METHODS, occurrence=occurrence_in_class(LONE_CPP, "RBNodeLoneParticle", anchor),
+                 extra_pre=only_vc, cxxname=LONE + "realizeInstance", plumb=LPlumb)
+    B.ctx.extraction[-1]["dropped"] = list(B.ctx.extraction[-1].get("dropped") or []) + dropped
+    for nm in ("calcKineticEnergy", "realizeArticulatedBodyVelocityCache", "getCB_G", "getUnitInertia_OB_G", "getV_GP"):       # inherited from RigidBodyNode (same transliterated code)
+        setattr(LoneNode, nm, C["DNode"].__dict__[nm])
+    B.dump_sources()
+    C["LoneNode"] = LoneNode
+    return LoneNode
+
+
+class LoneScenario:
+    """Ground (node 0) <- lone particle (node 2) with uIndex = 3 and qIndex = 4: an earlier mobilizer with 3 u's and 4 q's (a quaternion Ball: node 1, not
+    instantiated) owns slots u0..2 / q0..3, a later 1-dof mobilizer owns u6 / q7; so every u-array has 7 slots, every q-array 8, every body array 3, all filled
+    with distinct symbols (output arrays: distinct 'junk' symbols), and reading or writing a q-slot for a u-quantity or another node's slot is a failed obligation."""
+    NB, NU, NQ, NODE, UIX, QIX = 3, 7, 8, 2, 3, 4
+
+    def __init__(self, B):
+        S.reset_env()
+        # while the node code runs: S.ENV.abstract_scalars = True, i.e. x/m -> x*r with the definition r*m == 1 (hypothesis m != 0) in ENV.defs
+        C = B.cls
+        Lone = build_lone(B)
+        self.B, self.tok = B, B.ns["ic"]
+        tok = self.tok
+        class G0(C["Ground"]):
+            def calcQDotDot(self, *a): pass
+            def calcQDot(self, *a): pass
+        g = G0(0)
+        ground_cache_zero()
+        for fld in ("V_GB", "TotalCoriolisAcceleration"):
+            g._set(fld, 0)
+        self.m = D(R_("km"))
+        n = Lone(self.NODE, self.UIX, g, mass=self.m)
+        n.qIndex = self.QIX
+        self.Mk, self.q = sym_Mk(B, "k"), v3("q")          # mass symbol km == getMass(); any mass centre, any unit inertia
+        n.setMk_G(tok, self.Mk); n.setPhi(tok, C["PhiMatrix"](self.q))
+        self.g, self.n = g, n
+        self.H = HMat(3, [SpatialVec(Vec(0, 0, 0), Vec(*[1 if i == j else 0 for i in range(3)])) for j in range(3)])        # the specification's H = [0; 1]
+        self.matter = C["Matter"]([[g], [n]])
+        self.matter.nb, self.matter.nu = self.NB, self.NU
+        self.matter.u, self.matter.qdot = self.rarr("u"), self.rarr("qdotjunk", self.NQ)
+
+    def rarr(self, name, n=None): return RArr([R_("%s%d" % (name, k)) for k in range(n or self.NU)])
+    def svarr(self, name, ground=None):
+        a = SVArr([sv("%s%d_" % (name, k)) for k in range(self.NB)])
+        if ground is not None:
+            a[0] = ground
+        return a
+    def own(self, arr, ix=None): return Vec([arr[(self.UIX if ix is None else ix) + i] for i in range(3)])
+    def defs(self): return recip_defs()
+
+
+def _snap(w):
+    return {k: ([sv_fill(x) for x in list.__iter__(v)] if isinstance(v, SVArr) else list(list.__iter__(v))) for k, v in w.items()}
+
+
+def _frame(B, sc, U, fn, tag, w, w0, written, hyp, sfx):
+    """every slot of every work array that does not belong to this node keeps its value. written: array name -> 'u' | 'q' | 'b' (this node's u-, q- or body slot may change) | None"""
+    lhs, rhs = [], []
+    for k in sorted(w):
+        own = {"u": range(sc.UIX, sc.UIX + 3), "q": range(sc.QIX, sc.QIX + 3), "b": [sc.NODE], None: []}[written.get(k)]
+        for i in range(len(w0[k])):
+            if i in own:
+                continue
+            lhs += flat(list.__getitem__(w[k], i)); rhs += flat(w0[k][i])
+    r = B.prove_bool("%s frame: slots of other mobilizers / bodies (u0..2, u6, q-slots, nodes 0, 1) and all input arrays are unchanged (%d scalars)%s" % (tag, len(lhs), sfx),
+                     z3.And(*eqs(Vec(lhs), Vec(rhs))), list(hyp), U, fn, minimal=True)
+    return r.status == "discharged"
+
+
+def _lone_paths(B, run, nbr=2):
+    seen = set()
+    for path, script, res in B.run_paths(run, nbr):
+        key = tuple(str(c_) for c_ in path)
+        if key in seen:
+            continue
+        seen.add(key)
+        if path:
+            s_ = z3.Solver(); s_.set("timeout", 10000); s_.add(*path)
+            if s_.check() == z3.unsat:
+                continue
+        yield list(path), ("" if len(seen) == 1 else " [path %d]" % len(seen)), res
+
+
+def _HT(sc, F):
+    """~H*F for the specification's H = [0; 1] (written out with the generic formula)"""
+    return Vec([S.dot(list(sc.H.cols[j][0]), list(F[0])) + S.dot(list(sc.H.cols[j][1]), list(F[1])) for j in range(3)])
+
+
+def lone_id_lemmas(B, U, zero_bias=False):
+    """calcBodyAccelerationsFromUdotOutward + calcInverseDynamicsPass2Inward (zero_bias: multiplyByMPass1Outward / Pass2Inward) of RBNodeLoneParticle"""
+    sc = LoneScenario(B)
+    n, tok = sc.n, sc.tok
+    tag = "MM" if zero_bias else "ID"
+    fn = LONE + ("multiplyByMPass1Outward/Pass2Inward" if zero_bias else "calcBodyAccelerationsFromUdotOutward/calcInverseDynamicsPass2Inward")
+    def run():
+        S.ENV.abstract_scalars = True
+        w = dict(udot=sc.rarr("ud"), A=sc.svarr("Ajunk", zero_sv()), f=sc.rarr("f"), F=sc.svarr("Fb"), Fc=sc.svarr("Fjunk"), tau=sc.rarr("taujunk"))
+        w0 = _snap(w)
+        if zero_bias:
+            n.multiplyByMPass1Outward(tok, w["udot"], w["A"])
+            n.multiplyByMPass2Inward(tok, w["A"], w["Fc"], w["tau"])
+        else:
+            n.calcBodyAccelerationsFromUdotOutward(tok, tok, w["udot"], w["A"])
+            n.calcInverseDynamicsPass2Inward(tok, tok, w["A"], w["f"], w["F"], w["Fc"], w["tau"])
+        S.ENV.abstract_scalars = False           # the specification side is written without let-abstraction
+        return w, w0
+    ok = True
+    for path, sfx, (w, w0) in _lone_paths(B, run):
+        hyp = path + sc.defs()
+        ud = sc.own(w0["udot"])
+        Aexp = sc.H * ud                                        # shift(A_GP) = 0 (Ground at rest), a = 0
+        ok &= prove(B, None, "%s1 A_GB == shift(A_GP) + H*udot + a == (0, udot[uIndex..uIndex+2])  (H = [0; 1], Ground at rest, a = 0; uIndex = 3, qIndex = 4)%s" % (tag, sfx),
+                    w["A"][sc.NODE], Aexp, hyp, U, fn)
+        m_, c_, I_ = sc.Mk.m, sc.Mk.p, sc.Mk.G.I_OF_F
+        al, ali = Aexp[0], Aexp[1]
+        NE = SpatialVec(m_ * (I_ * al) + m_ * cross(c_, ali), m_ * (ali + cross(al, c_)))
+        Fapp = zero_sv() if zero_bias else w0["F"][sc.NODE]
+        fapp = Vec(0, 0, 0) if zero_bias else sc.own(w0["f"])
+        Fexp = NE - Fapp                                        # b = 0 (no angular velocity), no children
+        ok &= prove(B, None, "%s2 F == Mk*A_GB + b - F_applied  (Newton-Euler at the body origin; b = 0, no children)%s" % (tag, sfx), w["Fc"][sc.NODE], Fexp, hyp, U, fn)
+        ok &= prove(B, None, "%s3 tau[uIndex..uIndex+2] == ~H*F - f_applied == m*udot - F_applied[1] - f_mobility%s" % (tag, sfx), sc.own(w["tau"]), _HT(sc, Fexp) - fapp, hyp, U, fn)
+        ok &= prove(B, None, "%s3' m*udot - F_applied[1] - f_mobility written out%s" % (tag, sfx), sc.own(w["tau"]), sc.m * ud - Fapp[1] - fapp, hyp, U, fn)
+        ok &= _frame(B, sc, U, fn, tag, w, w0, dict(A="b", Fc="b", tau="u"), hyp, sfx)
+    return ok
+
+
+def lone_fd_lemmas(B, U, zero_bias=False):
+    """calcUDotPass1Inward / Pass2Outward (zero_bias: multiplyByMInvPass1Inward / Pass2Outward) + realizeArticulatedBodyInertiasInward of RBNodeLoneParticle"""
+    sc = LoneScenario(B)
+    n, tok = sc.n, sc.tok
+    tag = "MI" if zero_bias else "FD"
+    fn = LONE + ("multiplyByMInvPass1Inward/Pass2Outward" if zero_bias else "calcUDotPass1Inward/Pass2Outward")
+    def run():
+        S.ENV.abstract_scalars = True
+        w = dict(f=sc.rarr("f"), F=sc.svarr("Fb"), udot=sc.rarr("udjunk"), z=sc.svarr("zjunk"), zPlus=sc.svarr("zpjunk"), eps=sc.rarr("epsjunk"), A=sc.svarr("Ajunk", zero_sv()))
+        w0 = _snap(w)
+        n.store.pop("P", None); n.store.pop("PPlus", None)
+        n.realizeArticulatedBodyInertiasInward(tok, tok, tok)
+        if zero_bias:
+            n.multiplyByMInvPass1Inward(tok, tok, tok, w["f"], w["z"], w["zPlus"], w["eps"])
+            n.multiplyByMInvPass2Outward(tok, tok, tok, w["eps"], w["A"], w["udot"])
+        else:
+            n.calcUDotPass1Inward(tok, tok, tok, tok, w["f"], w["F"], w["udot"], w["z"], w["zPlus"], w["eps"])
+            n.calcUDotPass2Outward(tok, tok, tok, tok, tok, w["eps"], w["A"], w["udot"], RArr(0))
+        S.ENV.abstract_scalars = False           # the specification side is written without let-abstraction
+        return w, w0, n.getP(tok)
+    ok = True
+    guarded = False
+    for path, sfx, (w, w0, P) in _lone_paths(B, run):
+        defs = sc.defs()
+        hyp = path + defs
+        if not guarded:
+            guarded = B.guard_sat("%s 1/m exists (m != 0)" % U, hyp, U) or True
+        x = sv("x")
+        ok &= prove(B, None, "N1 P*x == Mk*x  (P = Mk: no children)%s" % sfx, P * x, sc.Mk * x, hyp, U, LONE + "realizeArticulatedBodyInertiasInward")
+        f = sc.own(w0["f"])
+        Fapp = zero_sv() if zero_bias else w0["F"][sc.NODE]
+        zexp = -Fapp                                            # P*a + b - F_applied with a = b = 0, no children
+        if not zero_bias:
+            ok &= prove(B, None, "FD1 z == P*a + b - F_applied == -F_applied  (a = b = 0, no children)%s" % sfx, w["z"][sc.NODE], zexp, hyp, U, fn)
+        ok &= prove(B, None, "%s1e eps[uIndex..uIndex+2] == f_mobility - ~H*z%s%s" % (tag, "" if zero_bias else " == f_mobility + F_applied[1]", sfx), sc.own(w["eps"]), f - _HT(sc, zexp), hyp, U, fn)
+        udot = sc.own(w["udot"])
+        A_GB = w["A"][sc.NODE]
+        ok &= prove(B, None, "%s2 A_GB == shift(A_GP) + H*udot + a == (0, udot[uIndex..uIndex+2])  (Ground at rest, a = 0)%s" % (tag, sfx), A_GB, sc.H * udot, hyp, U, fn)
+        ok &= prove(B, None, ("MI2u m*udot[uIndex..uIndex+2] == f  (udot = f/m: M^-1 = 1/m, m != 0)%s" % sfx) if zero_bias else
+                    ("FD2u m*udot[uIndex..uIndex+2] == f_mobility + F_applied[1]  (udot = (f_mobility + F_applied[1])/m, m != 0)%s" % sfx), sc.m * udot, f + Fapp[1], hyp, U, fn)
+        T = sc.Mk * A_GB + zexp                                  # P*(A_GB - a) + z with the specification's P = Mk and z
+        if not zero_bias:
+            zP = w["zPlus"][sc.NODE]
+            ok &= prove(B, None, "FD3 linear part of P*(A_GB - a) + z == PPlus*shift(A_GP) + zPlus == zPlus  (Ground at rest; any mass centre)%s" % sfx, T[1], zP[1], hyp, U, fn)
+            c0 = eqs(sc.Mk.p, Vec(0, 0, 0))
+            ok &= prove(B, None, "FD3 P*(A_GB - a) + z == zPlus  (body origin = mass centre)%s" % sfx, T, zP, hyp + c0, U, fn)
+        ok &= prove(B, None, "%s4 ~H*(P*(A_GB - a) + z) == f_mobility  (joint equation; m != 0)%s" % (tag, sfx), _HT(sc, T), f, hyp, U, fn)
+        ok &= _frame(B, sc, U, fn, tag, w, w0, dict(A="b", udot="u", eps="u") if zero_bias else dict(A="b", udot="u", eps="u", z="b", zPlus="b"), hyp, sfx)
+    return ok
+
+
+def lone_roundtrips(B, U):
+    """the single lone-particle node below Ground, passes run by the real (transliterated) drivers of SimbodyMatterSubsystemRep:
+    inverse(forward(f, F)) == 0, forward(f + inverse(udot*)) == udot*, M*(MInv*v) == v, MInv*(M*v) == v, qdotdot slots"""
+    sc = LoneScenario(B)
+    n, tok, mt = sc.n, sc.tok, sc.matter
+    bd = "one lone particle below Ground (uIndex 3, qIndex 4; the other mobilizers' slots are carried along untouched)"
+    fnF = "SimbodyMatterSubsystemRep::calcTreeAccelerations + calcTreeResidualForces (RBNodeLoneParticle passes)"
+    fnM = "SimbodyMatterSubsystemRep::multiplyByMInv + multiplyByM (RBNodeLoneParticle passes)"
+    def run():
+        S.ENV.abstract_scalars = True
+        n.store.pop("P", None); n.store.pop("PPlus", None)
+        for k_ in LONE_VEL_FIELDS:
+            n.store.pop(k_, None)
+        n.realizeInstance(mt.sbs)
+        mt.realizeVelocityKinematics(tok)
+        f, Fb, xs, v = sc.rarr("f"), sc.svarr("Fb"), sc.rarr("us"), sc.rarr("v")
+        def fwd(ff):
+            o = dict(eps=sc.rarr("epsjunk"), z=sc.svarr("zjunk"), zPlus=sc.svarr("zpjunk"), A=sc.svarr("Ajunk"), udot=sc.rarr("udjunk"), qdd=sc.rarr("qddjunk", sc.NQ))
+            mt.calcTreeAccelerations(tok, ff, Fb, CList(), o["eps"], o["z"], o["zPlus"], o["A"], o["udot"], o["qdd"], RArr(0))
+            return o
+        def inv(ud):
+            o = dict(A=sc.svarr("Ajunk"), res=sc.rarr("resjunk"))
+            mt.calcTreeResidualForces(tok, f, Fb, ud, o["A"], o["res"])
+            return o
+        r = {}
+        fw = fwd(f)
+        r["fw"] = fw
+        r["fdid"] = inv(fw["udot"])["res"]
+        iv = inv(xs)
+        fp = RArr([f[k] + iv["res"][k] for k in range(sc.NU)])
+        r["idfd"], r["xs"] = fwd(fp)["udot"], xs
+        a = sc.rarr("mijunk"); mt.multiplyByMInv(tok, v, a)
+        b = sc.rarr("mmjunk"); mt.multiplyByM(tok, a, b)
+        r["mmi"] = b
+        a2 = sc.rarr("mmjunk"); mt.multiplyByM(tok, v, a2)
+        b2 = sc.rarr("mijunk"); mt.multiplyByMInv(tok, a2, b2)
+        r["mim"], r["v"] = b2, v
+        S.ENV.abstract_scalars = False           # the specification side is written without let-abstraction
+        return r
+    ok = True
+    for path, sfx, r in _lone_paths(B, run):
+        defs = sc.defs()
+        hyp = path + defs
+        B.guard_sat("%s 1/m exists (m != 0)%s" % (U, sfx), hyp, U)
+        ok &= prove(B, None, "inverse(forward(f, F)) residual == 0 in the particle's u-slots%s" % sfx, sc.own(r["fdid"]), Vec(0, 0, 0), hyp, U, fnF, bounded=bd)
+        ok &= prove(B, None, "forward(f + inverse(udot*)) == udot* in the particle's u-slots%s" % sfx, sc.own(r["idfd"]), sc.own(r["xs"]), hyp, U, fnF, bounded=bd)
+        ok &= prove(B, None, "qdotdot[qIndex..qIndex+2] == udot[uIndex..uIndex+2]  (calcQDotDot through the driver's &udot[uIndex], &qdotdot[qIndex])%s" % sfx,
+                    sc.own(r["fw"]["qdd"], sc.QIX), sc.own(r["fw"]["udot"]), hyp, U, fnF, bounded=bd)
+        ok &= prove(B, None, "multiplyByM(multiplyByMInv(v)) == v in the particle's u-slots%s" % sfx, sc.own(r["mmi"]), sc.own(r["v"]), hyp, U, fnM, bounded=bd)
+        ok &= prove(B, None, "multiplyByMInv(multiplyByM(v)) == v in the particle's u-slots%s" % sfx, sc.own(r["mim"]), sc.own(r["v"]), hyp, U, fnM, bounded=bd)
+    return ok
+
+
+def lone_vel_lemmas(B, U):
+    """realizeInstance (velocity-cache part) + realizeVelocity + calcKineticEnergy of RBNodeLoneParticle: V_GB = V_PB_G = V_FM = (0, u[uIndex..]), qdot[qIndex..] = u[uIndex..],
+    the bias terms it leaves at zero ARE zero (exact time derivative of the velocity by dual numbers; Newton-Euler from the momentum), KE = 1/2 m |v_cm|^2"""
+    fnv = LONE + "realizeInstance/realizeVelocity"
+    ok = True
+    def mk(dual):
+        sc = LoneScenario(B)
+        n, tok, mt = sc.n, sc.tok, sc.matter
+        if dual:
+            mt.u = RArr([D(R_("u%d" % k), R_("ud%d" % k)) for k in range(sc.NU)])
+        n.realizeInstance(mt.sbs)
+        n.realizeVelocity(mt.sbs)
+        return sc
+    for path, sfx, sc in _lone_paths(B, lambda: mk(False)):
+        n, tok, mt = sc.n, sc.tok, sc.matter
+        hyp = path + sc.defs()
+        u = sc.own(mt.u)
+        Vexp = sc.H * u
+        for fld in ("V_GB", "V_PB_G", "V_FM"):
+            ok &= prove(B, None, "V1 %s == H*u == (0, u[uIndex..uIndex+2])  (velocity recursion below Ground at rest; uIndex = 3, qIndex = 4)%s" % (fld, sfx), n._get(fld), Vexp, hyp, U, fnv)
+        ok &= prove(B, None, "V1q qdot[qIndex..qIndex+2] == u[uIndex..uIndex+2], every other qdot slot unchanged%s" % sfx, Vec(list(list.__iter__(mt.qdot))),
+                    Vec([mt.u[sc.UIX + k - sc.QIX] if sc.QIX <= k < sc.QIX + 3 else R_("qdotjunk%d" % k) for k in range(sc.NQ)]), hyp, U, fnv)
+        ok &= prove(B, None, "V1d VD_PB_G angular part == 0%s" % sfx, n._get("VD_PB_G")[0], Vec(0, 0, 0), hyp, U, fnv)
+        # V2: d/dt V_GB(t) for u(t) with rate udot equals the A_GB of calcBodyAccelerationsFromUdotOutward + the stored coriolis acceleration (which must therefore be 0)
+        sd = mk(True)
+        ud = RArr([R_("ud%d" % k) for k in range(sc.NU)])
+        Aarr = sc.svarr("Ajunk", zero_sv())
+        n.calcBodyAccelerationsFromUdotOutward(tok, tok, ud, Aarr)
+        ok &= prove(B, None, "V2 d/dt V_GB(t) == A_GB(udot) + a_mobilizer  (the coriolis acceleration the node stores (0) is the velocity-dependent part of d/dt V_GB)%s" % sfx,
+                    remap(lambda x_: D(der(x_)), sd.n._get("V_GB")), Aarr[sc.NODE] + n.getMobilizerCoriolisAcceleration(tok), hyp, U, fnv + " + calcBodyAccelerationsFromUdotOutward")
+        ok &= prove(B, None, "V4a total coriolis acceleration == shift(Ground's = 0) + a_mobilizer%s" % sfx, n.getTotalCoriolisAcceleration(tok), n.getMobilizerCoriolisAcceleration(tok), hyp, U, fnv)
+        ok &= prove(B, None, "V4b total centrifugal force == Mk*a_total + b%s" % sfx, n.getTotalCentrifugalForces(tok),
+                    n.getMk_G(tok) * n.getTotalCoriolisAcceleration(tok) + n.getGyroscopicForce(tok), hyp, U, fnv)
+        # V3: momentum (k, L) = Mk*V(t) about the moving body origin, no rotation (c, G constant): (d/dt k + v x L, d/dt L) == Mk*A + b for any rate A of the form (0, a)
+        Aany = SpatialVec(Vec(0, 0, 0), v3("Aa"))
+        V = n.getV_GB(tok)
+        Vt = dual_sv(remap(lambda x_: D(val(x_)), V), Aany)
+        h = sc.Mk * Vt
+        L = Vec([val(x_) for x_ in h[1].e]); vv = Vec([val(x_) for x_ in V[1].e])
+        lhs = SpatialVec(Vec([D(der(x_)) for x_ in h[0].e]) + cross(vv, L), Vec([D(der(x_)) for x_ in h[1].e]))
+        ok &= prove(B, None, "V3 (d/dt(k) + v x L, d/dt(L)) == Mk*A + b for (k,L) = Mk*V(t), A = (0, a)  (the gyroscopic force the node stores (0) is what Newton-Euler requires beyond Mk*A)%s" % sfx,
+                    lhs, sc.Mk * Aany + n.getGyroscopicForce(tok), hyp, U, fnv + " + SpatialInertia_::operator*")
+        m_, c_ = val(sc.Mk.m), sc.Mk.p
+        Gv = Mat([[val(x_) for x_ in r_] for r_ in sc.Mk.G.I_OF_F.m])
+        ok &= prove(B, None, "V5 calcKineticEnergy == 1/2 m |v_cm|^2 + 1/2 w.I_cm w == 1/2 m |u|^2  (w = 0)%s" % sfx, n.calcKineticEnergy(tok, tok),
+                    ke_textbook(m_, c_, Gv, Vec(0, 0, 0), Vec([val(x_) for x_ in u.e])), hyp, U, "RigidBodyNode::calcKineticEnergy (inherited by RBNodeLoneParticle)")
+    return ok
+
+
+def lone_jac_lemmas(B, U):
+    """multiplyBySystemJacobian / multiplyBySystemJacobianTranspose / calcEquivalentJointForces / calcCompositeBodyInertiasInward of RBNodeLoneParticle"""
+    sc = LoneScenario(B)
+    n, tok = sc.n, sc.tok
+    def run():
+        S.ENV.abstract_scalars = True
+        n.store.pop("TotalCentrifugalForces", None)
+        n.realizeInstance(sc.matter.sbs)
+        w = dict(v=sc.rarr("v"), Jv=sc.svarr("Jvjunk", zero_sv()), X=sc.svarr("X"), zt=sc.svarr("ztjunk"), out=sc.rarr("outjunk"), za=sc.svarr("zajunk"), jf=sc.rarr("jfjunk"))
+        w0 = _snap(w)
+        n.multiplyBySystemJacobian(tok, w["v"], w["Jv"])
+        n.multiplyBySystemJacobianTranspose(tok, w["zt"], w["X"], w["out"])
+        n.calcEquivalentJointForces(tok, tok, w["X"], w["za"], w["jf"])
+        R = B.cls["SIArr"](sc.NB)
+        n.calcCompositeBodyInertiasInward(tok, R)
+        S.ENV.abstract_scalars = False           # the specification side is written without let-abstraction
+        return w, w0, R
+    ok = True
+    for path, sfx, (w, w0, R) in _lone_paths(B, run):
+        hyp = path + sc.defs()
+        X = w0["X"][sc.NODE]
+        ok &= prove(B, None, "J1 (J v)_B == shift((J v)_Ground = 0) + H*v[uIndex..uIndex+2]%s" % sfx, w["Jv"][sc.NODE], sc.H * sc.own(w0["v"]), hyp, U, LONE + "multiplyBySystemJacobian")
+        ok &= prove(B, None, "J2 z == X_B  (no children)%s" % sfx, w["zt"][sc.NODE], X, hyp, U, LONE + "multiplyBySystemJacobianTranspose")
+        ok &= prove(B, None, "J3 (~J X)[uIndex..uIndex+2] == ~H*z%s" % sfx, sc.own(w["out"]), _HT(sc, X), hyp, U, LONE + "multiplyBySystemJacobianTranspose")
+        ok &= prove(B, None, "J4 calcEquivalentJointForces: ~H*(F_B - total centrifugal force (= 0))%s" % sfx, sc.own(w["jf"]), _HT(sc, X - n.getTotalCentrifugalForces(tok)), hyp, U, LONE + "calcEquivalentJointForces")
+        x = sv("x")
+        ok &= prove(B, None, "J5 composite body inertia R_B*x == Mk*x  (no children)%s" % sfx, R[sc.NODE] * x, sc.Mk * x, hyp, U, LONE + "calcCompositeBodyInertiasInward")
+        ok &= _frame(B, sc, U, LONE + "multiplyBySystemJacobian[Transpose]/calcEquivalentJointForces", "J", w, w0, dict(Jv="b", zt="b", za="b", out="u", jf="u"), hyp, sfx)
     return ok
